@@ -47,7 +47,7 @@ def step_obligations(prefix, kinds, tier, maxd, maxc, symflags=False, free=False
                              dict(KIND=k, MAXD=maxd, MAXC=maxc, NCP=(na * al) if symargs else 0, NA=na if symargs else 0, CARGS=None if symargs else PLACEHOLDER[:na],
                                   ALEN=al, CASES=(0, 1, 2) if k != "@other" else (0,), SYMFLAGS=symflags, FREE=free, SYMKW=symkw, BLANKDOC=symflags, REGION=region, DEEPD=deepd, DEEPC=deepc, PREARGS=tuple(preargs), NAMELEN=nl, TL=tl, DL=dl, SPECIAL=special,
                                   NT=tup(nl if k == "@other" else 1), FT=tup(3 + tl + dl if free else 1)),
-                             timeout=timeout or ((600 if k in ("function", "macro") else 300) if quick else 1800), encodes=STEP_ENC,
+                             timeout=timeout or ((600 if k in ("function", "macro") else 300) if quick else (3600 if k == "@other" else 1800)), encodes=STEP_ENC,
                              symbolic="abstract pre-state sigma (shape of the definition and class stacks, each frame entry or none, "
                                       "pending declaration none/method/test), documented flag, letter case of the command name, "
                                       "token line/column"
